@@ -112,7 +112,41 @@ CLAIMED["C07"] = dict(
 NOT_YET = "check not built yet in this round (planned, see DESIGN.md section 4)"
 NA = {}
 
+
+# ---- later coverage: keep the level texts in step with what the harnesses run -------------------------------------
+CLAIMED["C02"]["text"] = CLAIMED["C02"]["text"].replace(
+    "for XYZ (incl. user-defined atom columns), PDB, MOL2, SDF, POSCAR, Cube and FCIDUMP:",
+    "for all 13 read/write formats - XYZ (incl. user-defined atom columns), PDB, MOL2, SDF, POSCAR, Cube, FCIDUMP, FCHK (every "
+    "optional section), WFN, WFX, Molden, Molekel and QCSchema molecules:")
+CLAIMED["C02"]["note"] = ("Wavefunction formats use small bases (s/p/d shells, 2 atoms; C01 varies bases and conventions); values "
+                          "overflowing their column and digit-level rounding outside; recorded findings: PDB default atom names overflow, "
+                          "FCHK objects without basis/orbitals, FCHK ROHF total density, FCHK lot with a blank, WFX lot.")
+CLAIMED["C15"]["note"] = "Digit-level drift of float formatting is abstracted (numbers are exact terms); sizes <= 1000 atoms in the quick tier; QCSchema provenance is the documented exception."
+CLAIMED["C03"]["text"] = CLAIMED["C03"]["text"].replace(
+    "Cube, CHARMM crd and FCIDUMP on files",
+    "Cube, CHARMM crd, FCIDUMP, WFN, WFX, FCHK (single point and Opt/IRC trajectories), Molden, Molekel, MWFN, Gaussian input and "
+    "Gaussian log integral dumps on files")
+CLAIMED["C03"]["note"] = ("gamess, orca/qchem/cp2k logs and QCSchema have no independent layout writer here (free-form program output; their unit "
+                          "handling is checked on the tokenised corpus in C04); float32 storage precision and Fortran D exponents outside; one "
+                          "recorded finding (PDB CONECT serial numbers).")
+CLAIMED["C13"]["note"] = "More than 5 frames and multi-field corruption outside; FCHK optimisation/IRC, GRO and extended-XYZ trajectories come from independent layout writers."
+
+
+def _sync_with_harness():
+    """Append the bounds each harness states (the same text that goes into the evidence files)."""
+    try:
+        import importlib
+        for pid, c in CLAIMED.items():
+            meta = importlib.import_module(f"harness.c{pid[1:]}").META
+            b = meta.get("bounds", {})
+            c["text"] = c["text"].rstrip() + f" BOUNDS AS RUN - quick: {b.get('quick', '')} | thorough: {b.get('thorough', '')}"
+            c["note"] = c["note"].rstrip() + " OUTSIDE THE CLAIM: " + "; ".join(meta.get("outside", []))
+    except ImportError as exc:          # run with /verif/.venv/bin/python (numpy, z3) to pick the harness texts up
+        print("warning: harness modules not importable, bounds not appended:", exc)
+
+
 def main():
+    _sync_with_harness()
     props = [json.loads(l)["id"] for l in open(os.path.join(HERE, "properties.jsonl"))]
     checks = []
     for pid in props:
